@@ -29,31 +29,32 @@ type Hidden struct {
 }
 
 type Fact struct {
-	I, I2 int64
-	I8    int8
-	I16   int16
-	I32   int32
-	In    int
-	U     uint64
-	U8    uint8
-	U16   uint16
-	U32   uint32
-	Un    uint
-	F     float64
-	F32   float32
-	S     string
-	B     bool
-	T     time.Time
-	PI    *int64
-	P     *Sub
-	Arr   []int64
-	SArr  []string
-	PArr  []*Sub
-	M     map[string]int64
-	MS    map[string]string
-	MP    map[string]*Sub
-	K     int64
-	KS    string
+	I, I2  int64
+	I8     int8
+	I16    int16
+	I32    int32
+	In     int
+	U      uint64
+	U8     uint8
+	U16    uint16
+	U32    uint32
+	Un     uint
+	F      float64
+	F32    float32
+	S      string
+	B      bool
+	T      time.Time
+	PI     *int64
+	P      *Sub
+	Arr    []int64
+	SArr   []string
+	PArr   []*Sub
+	M      map[string]int64
+	MS     map[string]string
+	MP     map[string]*Sub
+	K      int64
+	KS     string
+	SelArr []int64
 
 	h *Hidden
 }
@@ -90,6 +91,18 @@ func HeavyOf(x int64) int64 { return x*3 + 1 }
 
 // Heavy is pure but counted.
 func (f *Fact) Heavy(x int64) int64 {
+	h := f.H()
+	h.HeavyCalls++
+	h.Log = append(h.Log, fmt.Sprintf("heavy:%d", x))
+	if h.OnProbe != nil {
+		h.OnProbe("heavy", x, 0)
+	}
+	return HeavyOf(x)
+}
+
+// Iheavy is a second counted pure method whose call text "F.Iheavy(...)" contains the text of the
+// variable F.I without depending on it.
+func (f *Fact) Iheavy(x int64) int64 {
 	h := f.H()
 	h.HeavyCalls++
 	h.Log = append(h.Log, fmt.Sprintf("heavy:%d", x))
@@ -161,6 +174,9 @@ func (f *Fact) Clone() *Fact {
 	if f.Arr != nil {
 		c.Arr = append([]int64{}, f.Arr...)
 	}
+	if f.SelArr != nil {
+		c.SelArr = append([]int64{}, f.SelArr...)
+	}
 	if f.SArr != nil {
 		c.SArr = append([]string{}, f.SArr...)
 	}
@@ -224,6 +240,9 @@ func (f *Fact) Dump() string {
 		b.WriteString(" Arr:nil")
 	} else {
 		fmt.Fprintf(&b, " Arr:%v", f.Arr)
+	}
+	if f.SelArr != nil {
+		fmt.Fprintf(&b, " SelArr:%v", f.SelArr)
 	}
 	if f.SArr == nil {
 		b.WriteString(" SArr:nil")
